@@ -134,6 +134,7 @@ func parseUse(line string) useTruth {
 			ne++
 		case tok == "+n":
 			nv++
+		case tok == "+E" || tok == "+N": // a refused registration (nil hook): nothing is registered
 		case tok == "snd": // a send in mid-response: nothing changes on the receive side
 		case strings.HasPrefix(tok, "h:") || strings.HasPrefix(tok, "H:"):
 			// a header-only packet (H: with the EOM status) is delivered as a package of its own; judged
@@ -731,7 +732,7 @@ func c11Gen(tier string, rng *rand.Rand, emit func(Case)) {
 			rt := respTokens(rng, c11Response(rng))
 			// hooks registered between responses, or between the packets of one
 			for h := 0; h < rng.Intn(3); h++ {
-				hook := []string{"+e", "+n"}[rng.Intn(2)]
+				hook := []string{"+e", "+n", "+e", "+n", "+E", "+N"}[rng.Intn(6)]
 				at := 0
 				if rng.Intn(3) == 0 {
 					at = rng.Intn(len(rt))
@@ -818,7 +819,7 @@ func useReferenceLine(line string) (string, bool) {
 		switch {
 		case t == "snd":
 			changed = true
-		case t == "r" || t == "+e" || t == "+n" || strings.HasPrefix(t, "h:") || strings.HasPrefix(t, "H:"):
+		case t == "r" || t == "+e" || t == "+n" || t == "+E" || t == "+N" || strings.HasPrefix(t, "h:") || strings.HasPrefix(t, "H:"):
 			if len(body) != 0 {
 				return "", false // inside a message: the answer depends on the packetisation
 			}
